@@ -174,6 +174,17 @@ func VerifC12Compact(h *verifh.H) {
 			times = append(times, int64(t), time.Now().UnixNano())
 		}
 	}
+	if f := h.Param("filler", 0); f > 0 {
+		// a store that is not tiny: other entities follow in the change log, so that the scans of
+		// the compactor run past Badger's iterator prefetch window and items are reused; under gosx
+		// key buffers handed out by Item().Key() are overwritten as soon as the iterator moves
+		var fill []*server.Entity
+		for i := 0; i < f; i++ {
+			fill = append(fill, vMk("ns0:f"+server.VItoa(i), vShape{val: "x"}))
+		}
+		h.Assert(ds.StoreEntities(fill) == nil, "filler")
+		h.RecycleIteratorKeys()
+	}
 	before := vObserve(h, hub, times)
 	thr := []int{1, 2, 100000}[h.Choice("threshold", h.Param("thresholds", 2))]
 	strategy := &deduplicationStrategy{counts: make(map[string]int), changeBuffer: make(map[[24]byte]byte), flushAfter: thr}
